@@ -164,7 +164,10 @@ def run_case(c):
                 if len(viol) < 5:
                     viol.append({"mech": "argument-modified", "op": k, "before": np.asarray(snap).tolist(), "after": np.asarray(arg).tolist()})
         else:
-            lo, hi, kind = scenario.gen_box(rng, N)
+            if rng.random() < 0.25:
+                lo, hi, kind = scenario.nearby_box(rng, lo, hi)      # the next box is a slight correction of the current one
+            else:
+                lo, hi, kind = scenario.gen_box(rng, N)
             last_inverse = None
             a_lo = np.array(lo, dtype=float) if rng.random() < 0.5 else lo
             a_hi = np.array(hi, dtype=float) if rng.random() < 0.5 else hi
@@ -225,7 +228,7 @@ def run_case(c):
 
 
 def finalize(obs, tier, stats):
-    for k in ("ops_image", "ops_inverse", "ops_preimages", "ops_setbounds", "integer_typed_args", "roundtrip_args", "image_of_previous_inverse", "box_special", "box_unit", "box_far", "kept_argument_arrays_rechecked", "work_buffer_args", "setbounds_with_reused_objects", "constructed_from_reused_buffers", "constructed_from_caller_arrays", "evolvents_built_by_a_solver", "solvers_built_while_a_solver_evolvent_was_queried"):
+    for k in ("ops_image", "ops_inverse", "ops_preimages", "ops_setbounds", "integer_typed_args", "roundtrip_args", "image_of_previous_inverse", "box_special", "box_unit", "box_far", "box_nearby", "kept_argument_arrays_rechecked", "work_buffer_args", "setbounds_with_reused_objects", "constructed_from_reused_buffers", "constructed_from_caller_arrays", "evolvents_built_by_a_solver", "solvers_built_while_a_solver_evolvent_was_queried"):
         if not obs.get(k):
             return "operation class %s never exercised" % k, {}
     return None, {}
